@@ -291,7 +291,17 @@ class Minimize(Contract):
             x = SArr(Cell(lambda j: OPTX(row, j), (s.dim,), 'real'))
             return {'x': x, 'fun': SReal(OPTF(row))}
         scipy = NS(optimize=NS(minimize=sp_minimize))
-        return dict(np=np_module(), scipy=scipy)
+
+        def np_empty(shape, dtype=None):
+            a = npspec.empty(shape, dtype)
+            if a.ndim == 1:
+                s.vals = a              # the vector of values (anchored to the allocation, not to the local's name)
+            return a
+
+        def np_argmin(a):
+            s.ind_min = npspec.argmin(a)
+            return s.ind_min
+        return dict(np=np_module(empty=np_empty, argmin=np_argmin), scipy=scipy)
 
     def requires(self, s):
         r = [s.n >= 1, s.dim >= 1, ('bounds are well-formed', z3.ForAll([z3.Int('jb')], LO(z3.Int('jb')) <= HI(z3.Int('jb'))))]
@@ -319,23 +329,22 @@ class Minimize(Contract):
     def _inv_runs(self, s, l):
         n_l, at = self._locs(l)
         k = l.it.index
-        return [('one end point and one value per finished run', z3.And(n_l == k, l.vals.shape[0] == s.n)),
+        return [('one end point and one value per finished run', z3.And(n_l == k, s.vals.shape[0] == s.n)),
                 ('end points and values are the optimiser results, in order',
-                 forall_range(0, k, lambda i: z3.And(l.vals.at(i) == OPTF(i), forall_range(0, s.dim, lambda j: at(i, j) == OPTX(i, j), 'j')), 'i'))]
+                 forall_range(0, k, lambda i: z3.And(s.vals.at(i) == OPTF(i), forall_range(0, s.dim, lambda j: at(i, j) == OPTX(i, j), 'j')), 'i'))]
 
     def _inv_clip(self, s, l):
-        m = T(l.ind_min)
+        m = T(s.ind_min)
         k = l.it.index
         return [('the selected end point is clipped up to the current coordinate and untouched beyond',
                  forall_range(0, s.dim, lambda j: l.locs.at(m, j) == z3.If(j < k, zclip(OPTX(m, j), LO(j), HI(j)), OPTX(m, j)), 'j')),
-                ('locs_out aliases the selected end point', z3.BoolVal(isinstance(l.locs_out, SArr) and l.locs_out.cell is l.locs.cell)),
-                ('values untouched', forall_range(0, s.n, lambda i: l.vals.at(i) == OPTF(i), 'i'))]
+                ('values untouched', forall_range(0, s.n, lambda i: s.vals.at(i) == OPTF(i), 'i'))]
 
     @property
     def loops(self):
         from pyvc import instrument
         s_fresh = lambda why: ArrList(cur().fresh_int('n_locs'), self._s.dim, cur().fresh_fn('locs', I, I, R))
-        runs = Loop(inv=self._inv_runs, modifies=lambda s, l: [l.vals], fresh={'locs': s_fresh})
+        runs = Loop(inv=self._inv_runs, modifies=lambda s, l: [s.vals], fresh={'locs': s_fresh})
         runs.rebind = ('locs',)
         all_ = {0: Loop(inv=self._inv_start, modifies=lambda s, l: [l.start_points]),
                 1: Loop(inv=self._inv_start, modifies=lambda s, l: [l.start_points]),
@@ -668,6 +677,9 @@ class RandMaxVarAcquire(_AcqContract):
             return [('returns a matrix of points', z3.BoolVal(False))]
         return [('one column per parameter', result.shape[1] == s.dim),
                 ('exactly the requested number of points', result.shape[0] == s.n),
+                ('every acquired point is a state of the one chain that was run (so it is inside the bounds whenever the chain stays inside)',
+                 z3.And(z3.BoolVal(len(s.chains) == 1), forall_range(0, result.shape[0], lambda r: exists_range(0, s.ns, lambda k: forall_range(
+                     0, s.dim, lambda j: result.at(r, j) == s.chains[0].at(k, j), 'j'), 'k'), 'r')) if len(s.chains) == 1 else z3.BoolVal(False)),
                 ('every acquired point lies inside the bounds', rows_in_bounds(result, result.shape[0], s.dim))]
 
     def witness(self, vc, model, ob):
